@@ -20,6 +20,7 @@ type bitMeta struct {
 	n   *T  // bit index (Int term)
 	w   int // width of the value
 	neg bool // the complement ^(1<<n)
+	shr *T   // non-nil: the value is shr>>n (logical shift of an unsigned value)
 }
 
 func atom(s, sort string) *T { return &T{op: s, sort: sort} }
@@ -469,4 +470,16 @@ func sortedKeys(m map[string]bool) []string {
 	}
 	sort.Strings(ks)
 	return ks
+}
+
+// size of a term (number of nodes), capped
+func (t *T) size(cap int) int {
+	n := 1
+	for _, a := range t.args {
+		n += a.size(cap - n)
+		if n > cap {
+			return n
+		}
+	}
+	return n
 }
